@@ -2,6 +2,7 @@
     This file contains the property theorems only. *)
 From Coq Require Import List ZArith.
 From Garr Require Import Conc.Conc Conc.Lin Queue.JdkModel Queue.MutexModel Queue.MutexProofs.
+From Garr Require Import Conc.LinHW Queue.MutexHW.
 From Garr Require Import Pure.F64 Adder.StripedModel Adder.SimpleModel Adder.AdderSpec Adder.SimpleMutex.
 Import ListNotations.
 
@@ -26,3 +27,20 @@ Theorem C19_mutex_adder :
     lin_ok mutex_adder aret_eqb (counter_spec wadd) xlp xinit tt 0%Z progs sched = true.
 Proof. exact mutex_adder_linearizable. Qed.
 Print Assumptions C19_mutex_adder.
+
+(** Herlihy-Wing form (see C01): both objects' histories are equivalent to legal
+    sequential histories extending the real-time order. *)
+Lemma aret_eqb_eq a b : aret_eqb a b = true -> a = b.
+Proof.
+  destruct a, b; simpl; intros H; try discriminate; [reflexivity|].
+  apply Z.eqb_eq in H. congruence.
+Qed.
+Theorem C19_mutex_queue_herlihy_wing : forall progs sched,
+  hw_linearizable MutexProofs.fifo_spec [] (trace mutexq (init _ minit tt progs) sched).
+Proof. exact mutex_queue_hw_linearizable. Qed.
+Theorem C19_mutex_adder_herlihy_wing : forall progs sched,
+  hw_linearizable (counter_spec wadd) 0%Z (trace mutex_adder (init xpc xinit tt progs) sched).
+Proof.
+  intros progs sched. eapply lin_ok_hw; [exact aret_eqb_eq|]. apply mutex_adder_linearizable.
+Qed.
+Print Assumptions C19_mutex_adder_herlihy_wing.
